@@ -35,7 +35,8 @@ pub static PROP: Prop = Prop {
            count) set to each of {0,1,n-1,n,n+1,2^31,2^32-1} (time also 2^63 and 2^64-1); every key byte with one bit \
            flipped. Real-provider shape = (n in 1..=4) x (restart without / with a rotation in between; crash enumeration): \
            ntpd's spawn() runs in a forked child on a temp dir; the crash enumeration bounds the file size with \
-           RLIMIT_FSIZE=k for EVERY k=0..=len while the real task stores a rotated set over an older file. Distinct \
+           RLIMIT_FSIZE=k while the real task stores a rotated set over an older file: EVERY k=0..=len for the 1-key file \
+           (all sizes in the thorough tier), and k in {0..=21, each key boundary -1/0/+1, len-2..=len} for 2-4 keys in the quick tier. Distinct \
            non-trivial = distinct (shape, fault family, loader outcome) tuples.",
     assumptions: &[
         "crash model of the statement: after the truncating open the file holds a prefix of the new content; reordering below the file system is out of scope",
@@ -58,6 +59,7 @@ pub static PROP: Prop = Prop {
         "real_provider_restarts",
         "real_provider_mode_checks",
         "real_provider_crash_points",
+        "real_provider_crash_enumerations_complete",
     ],
     exhaustive: true,
     crash_is_violation: false,
@@ -306,6 +308,7 @@ fn run_provider(path: &str, history: usize, stores: usize, fsize_limit: Option<u
             .map(|(p, _)| format!("{:?}", p.get()));
         let v = rt.block_on(async move {
             let mut rx = spawn(cfg).await;
+            let initial = rx.borrow().clone();
             // the task sends the key set after every store attempt (the first send repeats the initial set)
             match tokio::time::timeout(std::time::Duration::from_secs(20), rx.changed()).await {
                 Ok(Ok(())) => {}
@@ -315,8 +318,8 @@ fn run_provider(path: &str, history: usize, stores: usize, fsize_limit: Option<u
                 // wait until the rotated set (different key count or id offset) has been stored and sent
                 let Some(shape0) = loaded_shape else { return json!({"error": "rotation scenario needs a loadable file"}) };
                 loop {
-                    let now = format!("{:?}", *rx.borrow_and_update());
-                    if now != shape0 {
+                    let cur = rx.borrow_and_update().clone();
+                    if format!("{:?}", *cur) != shape0 || !std::sync::Arc::ptr_eq(&cur, &initial) {
                         break;
                     }
                     match tokio::time::timeout(std::time::Duration::from_secs(20), rx.changed()).await {
@@ -439,7 +442,16 @@ fn forked_shape(c: &mut Case, shape: u64) {
         // stored from an unlimited run first? No: each run draws its own key. Judge by structure instead:
         // the loaded set must be the old set (first store completed) or a set consisting of keys[1..] + one
         // new key with id offset 8 (the rotated set), or be rejected.
-        for k in 0..=len as u64 {
+        // every k for one key (and for all sizes in the thorough tier); for larger files in the quick tier only the
+        // structural boundaries (a forked daemon instance per crash point is expensive)
+        let all_k = n == 1 || c.tier == Tier::Thorough;
+        let ks: Vec<u64> = (0..=len as u64)
+            .filter(|k| all_k || *k <= 21 || *k + 2 >= len as u64 || (*k >= 20 && (*k - 20 + 1) % 64 <= 2))
+            .collect();
+        if all_k {
+            c.inc("real_provider_crash_enumerations_complete");
+        }
+        for k in ks {
             let _ = std::fs::write(&path, &old);
             let _ = std::fs::set_permissions(&path, std::fs::Permissions::from_mode(0o600));
             let Some(_v) = child_value(c, run_provider(&path_s, history, 2, Some(k), &[], &[]), "crash run") else {
